@@ -16,7 +16,6 @@ import (
 	"github.com/corestario/kyber"
 	"github.com/corestario/kyber/encrypt/ecies"
 
-	"github.com/lidofinance/dc4bc/airgapped"
 	"github.com/lidofinance/dc4bc/client/types"
 	"github.com/lidofinance/dc4bc/fsm/types/requests"
 
@@ -721,33 +720,7 @@ func runC04Ceremony(c *Ctx, n, t int, seed uint64) {
 			c.Inconclusive("copy: %v", err)
 			continue
 		}
-		am, err := airgapped.NewMachine(copyDir)
-		if err != nil {
-			c.Inconclusive("open copy: %v", err)
-			continue
-		}
-		tmp := &world.Node{Cold: am}
-		for k := 0; k < 10; k++ {
-			pw := fmt.Sprintf("%s%x", []string{"", "x", world.Password[:len(world.Password)-1], world.Password + " "}[k%4], r.Bytes(k%5))
-			if pw == world.Password {
-				continue
-			}
-			am.SetEncryptionKey([]byte(pw))
-			c.Eval(1)
-			if err := am.LoadKeysFromDB(); err == nil {
-				c.Violate("C04/keys-load-with-wrong-password", fmt.Sprintf("machine %d password %q", i, pw), wit)
-			}
-			if krs, err := am.GetBLSKeyrings(); err == nil && len(krs) > 0 {
-				c.Violate("C04/keyrings-load-with-wrong-password", fmt.Sprintf("machine %d password %q", i, pw), wit)
-			}
-			c.Add("wrong_password_attempts", 1)
-		}
-		// positive control
-		am.SetEncryptionKey([]byte(world.Password))
-		if err := am.LoadKeysFromDB(); err != nil {
-			c.Violate("C04/keys-do-not-load-with-right-password", err.Error(), wit)
-		}
-		tmp.CloseHandles()
+		judgeSecretsIn(c, w.Dir, nd.ColdDir, fmt.Sprintf("machine %d", i), r, wit)
 		files, _ := os.ReadDir(copyDir)
 		for _, f := range files {
 			bz, err := os.ReadFile(filepath.Join(copyDir, f.Name()))
